@@ -38,6 +38,8 @@ func init() {
 			ruleUnpackValidationScope(r)
 			ruleJSONPathStateFresh(r)
 			ruleRegexpGroupNumbering(r)
+			ruleJSONExprsAllPaths(r)
+			rulePatternUnnamedExact(r)
 		},
 	})
 }
